@@ -99,7 +99,7 @@ def main(argv=None):
     quick = run.tier == "quick"
     # (a)+(b): transition-only definitions with any rate template and magnitude (also symbolic)
     seeds_det = ["SIR", "SIRS2", "CHAIN"]
-    dbound = 2 if quick else 3
+    dbound = 2          # quick: every third definition of the 2-edit neighbourhoods; thorough: all of them
     defs = {}
     ngen = 0
     for sname in seeds_det:
